@@ -45,6 +45,33 @@ def canon(text):
     return m.group(1) if m else text
 
 
+NUM_RE = re.compile(r"(?<![a-z_0-9.$])-?\d+(?![a-z_0-9])")
+
+
+def same_modulo(n1, n2):
+    """True if two normalised texts differ only in numbers that are the signed/unsigned spellings of one
+    8/16/32/64-bit value (e.g. `#-1` vs `#65535`): the same operand after numeric normalisation."""
+    if NUM_RE.sub("#", n1) != NUM_RE.sub("#", n2):
+        return False
+    a = [int(x) for x in NUM_RE.findall(n1)]
+    b = [int(x) for x in NUM_RE.findall(n2)]
+    if len(a) != len(b):
+        return False
+    for x, y in zip(a, b):
+        if x == y:
+            continue
+        lo, hi = min(x, y), max(x, y)
+        if lo < 0 and (hi - lo) in (1 << 8, 1 << 16, 1 << 32, 1 << 64) and hi < (hi - lo):
+            continue
+        return False
+    return True
+
+
+def primary(text):
+    """the rendering in front of an `alias  --  canonical form` annotation"""
+    return re.sub(r"\s--\s+\S.*$", "", text)
+
+
 def roundtrip(vd, cpu, bpa, text, W):
     """-> (status, detail).  status in accepted-same, rejected, violation kinds."""
     r1 = rt.asm_text(vd, cpu, A, text, bpa, delay_nop=False)
@@ -64,8 +91,14 @@ def roundtrip(vd, cpu, bpa, text, W):
         return "rejected", None
     t2 = "; ".join(x[2] for x in w)
     n1, n2 = rt.norm_text(text), rt.norm_text(t2)
-    if n1 == n2:
+    if n1 == n2 or same_modulo(n1, n2):
         return "same-text", None
+    if " -- " in text and " -- " in t2 and len(w) == 1:
+        # both decode to the same alias (e.g. msp430 `nop`): the instruction shown to the user is unchanged
+        p1 = rt.norm_text(primary(text) + " ")
+        p2 = rt.norm_text(primary(t2) + " ")
+        if p1 == p2:
+            return "same-text", None
     m1, m2 = corpus.mnemonic(canon(text)), corpus.mnemonic(canon(t2))
     if m1 == m2:
         return "operands-changed", {"T": text, "W": W.hex(), "W2": W2.hex(), "T2": t2}
